@@ -1,4 +1,5 @@
 import FinProtoc.Proofs.FmtLemmas
+import FinProtoc.Proofs.FmtSeen
 /-!
 # C10 — formatting is idempotent and layout-canonical
 
@@ -9,6 +10,14 @@ Proved about the formatter MODEL:
   comment printed by `VisitPacket` and again by `VisitPacketDefinition` doubles on every pass;
 * `format_layout_canonical`: the result is a function of the token stream (visible tokens, and per gap
   the comments with the line they start on) — two texts with the same `lex` format alike.
+
+* `printer_seen_nodup`, `format_prints_no_comment_twice`: for every text, layout and tree, no comment is marked
+  (= printed, `hiddenLeft_emits_what_it_marks` / `hiddenRight_emits_what_it_marks`) twice along the whole printer;
+  `lex_gaps_distinct`: the lexer gives every comment its own id; `printer_seen_from_gaps`: only comments of the
+  text are marked;
+* `seen_monotone`, `hiddenLeft_marks_gap`, `hiddenRight_marks_line`, `printer_completes_every_lookup`,
+  `field_comments_marked`: the marked list only grows, and when the printer has finished every comment in the
+  range of every look-up it performed is marked (helper calculus in `Proofs/FmtSeen.lean`).
 
 Idempotence `format (format x) = format x` and invariance under whitespace re-layout are decided per
 text on the REAL formatter by the check; the Lean proof for all texts needs the character-level
@@ -44,5 +53,191 @@ theorem format_layout_canonical (L : Layout) (x x' : String) (h : lex x = lex x'
     formatWith L x = formatWith L x' := by
   unfold formatWith parseFull
   rw [h, he]
+
+/-! ## The seen-set along the whole printer (`Proofs/FmtSeen.lean`)
+
+`GapsDistinct gaps` says that the comment ids are pairwise distinct, within each gap and across the gaps.  The
+lexer numbers the comments of a text consecutively, so this holds for every text (`lex_gaps_distinct`); an id in
+`seen` therefore stands for exactly one comment of the text. -/
+
+/-- the lexer gives every comment of a text its own id -/
+theorem lex_gaps_distinct (s : String) : GapsDistinct (lex s).gaps := lex_gapsDistinct s
+
+/-- NO COMMENT IS PRINTED TWICE.  For every layout, every table of comments with distinct ids, every first token
+and every tree: when the printer, started with nothing marked, finishes, the list of marked comment ids has no
+duplicate.  A look-up appends to that list exactly the ids of the comments whose text it returns
+(`hiddenLeft_fresh`, `hiddenRight_fresh`), so no comment text is returned by two look-ups. -/
+theorem printer_seen_nodup (L : Layout) (gaps : List (List Comment)) (first : Option Tok) (cst : Cst) (st' : St) (t : String)
+    (hg : GapsDistinct gaps) (h : (cstText L gaps first cst).run {} = .ok (t, st')) : st'.seen.Nodup :=
+  cstText_nodup L hg first cst _ _ _ h List.nodup_nil
+
+/-- the same from any state whose marked list is duplicate-free (it stays so) -/
+theorem printer_seen_nodup_from (L : Layout) (gaps : List (List Comment)) (first : Option Tok) (cst : Cst) (st st' : St) (t : String)
+    (hg : GapsDistinct gaps) (hs : st.seen.Nodup) (h : (cstText L gaps first cst).run st = .ok (t, st')) : st'.seen.Nodup :=
+  cstText_nodup L hg first cst _ _ _ h hs
+
+/-- only comments of the text are ever marked: every id in the final list is the id of a comment in `gaps` -/
+theorem printer_seen_from_gaps (L : Layout) (gaps : List (List Comment)) (first : Option Tok) (cst : Cst) (st' : St) (t : String)
+    (h : (cstText L gaps first cst).run {} = .ok (t, st')) : ∀ i ∈ st'.seen, ∃ c ∈ gaps.flatten, c.id = i := by
+  intro i hi
+  rcases cstText_from L gaps first cst _ _ _ h i hi with h0 | h0
+  · cases h0
+  · obtain ⟨c, hc, he⟩ := List.mem_map.mp h0; exact ⟨c, hc, he⟩
+
+/-- SEEN ONLY GROWS.  Along the whole printer the marked list is only extended at its end: what was marked before
+is still marked afterwards, in the same order. -/
+theorem seen_monotone (L : Layout) (gaps : List (List Comment)) (first : Option Tok) (cst : Cst) (st st' : St) (t : String)
+    (h : (cstText L gaps first cst).run st = .ok (t, st')) : st.seen <+: st'.seen :=
+  cstText_mono L gaps first cst _ _ _ h
+
+/-- the corollary for the formatter: an accepted text is printed without a crash, the result of `formatWith` is the
+trimmed text the printer returns, and in the final state no comment id occurs twice and every id is the id of a
+comment of the text -/
+theorem format_prints_no_comment_twice (L : Layout) (s : String) (cst : Cst) (h : parseFull s = some cst) :
+    ∃ t st', (cstText L (lex s).gaps (lex s).toks.head? cst).run {} = .ok (t, st') ∧
+      formatWith L s = .ok (trimSpace t) ∧ st'.seen.Nodup ∧
+      ∀ i ∈ st'.seen, ∃ c ∈ (lex s).gaps.flatten, c.id = i := by
+  obtain ⟨⟨t, st'⟩, hrun⟩ := cstText_noFail L (lex s).gaps (lex s).toks.head? cst {}
+  refine ⟨t, st', hrun, ?_, printer_seen_nodup L _ _ cst st' t (lex_gaps_distinct s) hrun,
+    printer_seen_from_gaps L _ _ cst st' t hrun⟩
+  unfold formatWith
+  simp only [h, hrun]
+
+/-- EVERY COMMENT OF A GAP A LEFT LOOK-UP READS IS PRINTED: after `hiddenLeft gaps t`, every comment of the gap
+before `t` is marked (it was printed earlier, or this look-up printed it) -/
+theorem hiddenLeft_marks_gap (gaps : List (List Comment)) (t : Tok) (st st' : St) (out : String)
+    (h : (hiddenLeft gaps t).run st = .ok (out, st')) : ∀ c ∈ gapAt gaps t.idx, c.id ∈ st'.seen :=
+  hiddenLeft_marks h
+
+/-- after `hiddenRight gaps t`, every comment of the gap after `t` that starts on `t`'s line is marked -/
+theorem hiddenRight_marks_line (gaps : List (List Comment)) (t : Tok) (st st' : St) (out : String)
+    (h : (hiddenRight gaps t).run st = .ok (out, st')) :
+    ∀ c ∈ gapAt gaps (t.idx + 1), c.line = t.line → c.id ∈ st'.seen :=
+  hiddenRight_marks h
+
+/-- the comments before the first token of the text are marked when the printer has finished (the first look-up
+marks them, nothing un-marks) -/
+theorem leading_comments_marked (L : Layout) (gaps : List (List Comment)) (first : Tok) (cst : Cst) (st st' : St) (t : String)
+    (h : (cstText L gaps (some first) cst).run st = .ok (t, st')) : ∀ c ∈ gapAt gaps first.idx, c.id ∈ st'.seen := by
+  unfold cstText at h
+  obtain ⟨left, st1, h1, h2⟩ := run_bind_ok h
+  intro c hc
+  have hm : c.id ∈ st1.seen := hiddenLeft_marks h1 c hc
+  have hmono : st1.seen <+: st'.seen := by
+    revert h2
+    cases hl : cst.defs.getLast? with
+    | none => intro h2; exact Tr.pure RMono.preOrd _ _ _ _ h2
+    | some last =>
+      intro h2
+      exact Tr.bind RMono.preOrd (Tr.mapM RMono.preOrd _ _ fun d _ =>
+          topDefText_tr RMono.preOrd gaps (hiddenLeft_mono gaps) (hiddenRight_mono gaps) L d) (fun _ =>
+        Tr.bind RMono.preOrd (hiddenRight_mono gaps _) fun _ => Tr.pure RMono.preOrd _) _ _ _ h2
+  exact hmono.subset hm
+
+/-- EVERY LOOK-UP THE PRINTER PERFORMS IS COMPLETE AT THE END.  `cstLooks first cst` lists the comment look-ups of a
+run of the printer in the order in which it performs them (`Look.left t`: the gap before `t`; `Look.right t`: the
+comments of the gap after `t` that start on `t`'s line).  When the printer has finished, for each of them every
+comment it ranges over is marked — printed by that look-up or by an earlier one, and never un-marked. -/
+theorem printer_completes_every_lookup (L : Layout) (gaps : List (List Comment)) (first : Option Tok) (cst : Cst)
+    (st st' : St) (t : String) (h : (cstText L gaps first cst).run st = .ok (t, st')) :
+    ∀ ℓ ∈ cstLooks first cst, ℓ.Done gaps st' :=
+  fun ℓ hl => (cstText_does L first cst).2 ℓ hl st t st' h
+
+/-- spelled out for the fields of a packet: every comment between the previous token and the first token of a field
+definition is marked at the end, and so is every comment behind the field's closing comma on the same line -/
+theorem field_comments_marked (L : Layout) (gaps : List (List Comment)) (first : Option Tok) (cst : Cst)
+    (st st' : St) (t : String) (h : (cstText L gaps first cst).run st = .ok (t, st'))
+    (p : PacketDef) (hp : TopDef.packet p ∈ cst.defs) (f : FieldWA) (hf : f ∈ p.fields) :
+    (∀ c ∈ gapAt gaps f.fd.start.idx, c.id ∈ st'.seen) ∧
+    (∀ c ∈ gapAt gaps (f.fd.stop.idx + 1), c.line = f.fd.stop.line → c.id ∈ st'.seen) := by
+  have hall := printer_completes_every_lookup L gaps first cst st st' t h
+  obtain ⟨last, hlast⟩ : ∃ last, cst.defs.getLast? = some last := by
+    cases hl : cst.defs.getLast? with
+    | none => rw [List.getLast?_eq_none_iff.mp hl] at hp; cases hp
+    | some last => exact ⟨last, rfl⟩
+  have hmem : ∀ ℓ ∈ fieldDefLooks f.fd, ℓ ∈ cstLooks first cst := by
+    intro ℓ hl
+    unfold cstLooks
+    rw [hlast]
+    refine List.mem_append_right _ (List.mem_append_left _ (List.mem_flatMap.mpr ⟨_, hp, ?_⟩))
+    show ℓ ∈ packetDefLooks p
+    unfold packetDefLooks
+    exact List.mem_append_left _ (List.mem_append_right _ (List.mem_flatMap.mpr ⟨f, hf, hl⟩))
+  exact ⟨hall _ (hmem _ (start_mem_fieldDefLooks f.fd)), hall _ (hmem _ (stop_mem_fieldDefLooks f.fd))⟩
+
+/-- A COMMENT IS MARKED BY A LEFT LOOK-UP IFF ITS TEXT IS EMITTED BY IT.  There is a list `cs` of comments of the gap
+before `t`, in gap order, such that the returned text is the concatenation of their texts (each followed by a
+newline), the marked list grows by exactly their ids, and — ids being distinct — a comment of the text is in `cs`
+exactly when it is marked afterwards and was not marked before. -/
+theorem hiddenLeft_emits_what_it_marks (gaps : List (List Comment)) (t : Tok) (st st' : St) (out : String)
+    (hg : GapsDistinct gaps) (h : (hiddenLeft gaps t).run st = .ok (out, st')) :
+    ∃ cs : List Comment, cs.Sublist (gapAt gaps t.idx) ∧
+      out = String.join (cs.map fun c => c.text ++ "\n") ∧
+      st'.seen = st.seen ++ cs.map Comment.id ∧
+      ∀ c ∈ gaps.flatten, (c ∈ cs ↔ c.id ∈ st'.seen ∧ c.id ∉ st.seen) := by
+  obtain ⟨h1, h2⟩ := hiddenLeft_ok h
+  refine ⟨leftNew gaps t st, List.filter_sublist, h1, h2, fun c hc => ?_⟩
+  rw [h2]
+  exact marked_iff hg (leftNew_sub gaps t st) (leftNew_fresh gaps t st) c hc
+
+/-- the same for a right look-up (texts concatenated without separator) -/
+theorem hiddenRight_emits_what_it_marks (gaps : List (List Comment)) (t : Tok) (st st' : St) (out : String)
+    (hg : GapsDistinct gaps) (h : (hiddenRight gaps t).run st = .ok (out, st')) :
+    ∃ cs : List Comment, cs.Sublist (gapAt gaps (t.idx + 1)) ∧
+      out = String.join (cs.map (·.text)) ∧
+      st'.seen = st.seen ++ cs.map Comment.id ∧
+      ∀ c ∈ gaps.flatten, (c ∈ cs ↔ c.id ∈ st'.seen ∧ c.id ∉ st.seen) := by
+  obtain ⟨h1, h2⟩ := hiddenRight_ok h
+  refine ⟨rightNew gaps t st, List.filter_sublist, h1, h2, fun c hc => ?_⟩
+  rw [h2]
+  exact marked_iff hg (rightNew_sub gaps t st) (rightNew_fresh gaps t st) c hc
+
+/-! ## Non-vacuity -/
+
+/-- comments before, inside and after options / packet / fields / inline object / match pairs, documentation strings,
+attributes, MetaData; the last comment stands on a line of its own after the closing brace -/
+private def exText : String :=
+  "// a\noptions { // b\n X = 1; // c\n}\nMetaData M {\n u8 T `d`,\n}\n// e\nroot packet P { // f\n // g\n T, // h\n @tag(7)\n" ++
+  " u8 L @lengthOf(B) `n`, // i\n repeat H {\n  u8 V, // j\n }, // k\n match T as B {\n  // l\n  [1, 2] : Q, // m\n },\n} // n\n// o\n"
+
+private def lIdx (ls : List Look) : List Nat := ls.filterMap fun | .left t => some t.idx | .right _ => none
+private def rIdx (ls : List Look) : List Nat := ls.filterMap fun | .right t => some t.idx | .left _ => none
+
+/-- evaluated by the kernel: the text is accepted; the printer marks the comments 0 … 12, each once, in source order;
+the text has 14 comments — the last one (`// o`, on its own line after the last token) is read by no look-up; and the
+list of look-ups `cstLooks` (20 of them here) names the same tokens as `Fmt.anchors`, the independent enumeration
+the check uses to explain a lost comment -/
+theorem exText_run :
+    (match parseFull exText with
+     | some cst =>
+       (match (cstText {} (lex exText).gaps (lex exText).toks.head? cst).run {} with
+        | .ok (_, st) => st.seen == List.range 13
+        | .error _ => false) &&
+       ((lex exText).gaps.flatten.map Comment.id == List.range 14) &&
+       (let ls := cstLooks (lex exText).toks.head? cst
+        let an := anchors cst (lex exText).toks.head?
+        ls.length == 20 && lIdx ls == an.1 && (rIdx ls).all an.2.contains && an.2.all (rIdx ls).contains)
+     | none => false) = true := by
+  decide +kernel
+
+/-- the hypotheses of `format_prints_no_comment_twice` are satisfiable and its conclusion is instantiated -/
+example : ∃ (t : String) (st' : St), formatWith {} exText = .ok (trimSpace t) ∧ st'.seen.Nodup ∧
+    (∀ i ∈ st'.seen, ∃ c ∈ (lex exText).gaps.flatten, c.id = i) := by
+  cases h : parseFull exText with
+  | none => have := exText_run; rw [h] at this; cases this
+  | some cst =>
+    obtain ⟨t, st', _, h2, h3, h4⟩ := format_prints_no_comment_twice {} exText cst h
+    exact ⟨t, st', h2, h3, h4⟩
+
+/-- the two look-ups on a concrete table: the left look-up before token 3 prints both comments of that gap, a second
+one prints nothing; the right look-up after token 5 (line 2) prints only the comment on line 2 -/
+example :
+    let gaps : List (List Comment) := [[], [], [], [⟨"// x", 1, 0⟩, ⟨"// y", 2, 1⟩], [], [], [⟨"// z", 2, 2⟩, ⟨"// w", 3, 3⟩]]
+    let t3 : Tok := { kind := .ident, text := "A", line := 2, col := 0, idx := 3 }
+    let t5 : Tok := { kind := .comma, text := ",", line := 2, col := 1, idx := 5 }
+    (match (do let a ← hiddenLeft gaps t3; let b ← hiddenLeft gaps t3; let c ← hiddenRight gaps t5; pure (a, b, c) : F _).run {} with
+     | .ok ((a, b, c), st) => a == "// x\n// y\n" && b == "" && c == "// z" && st.seen == [0, 1, 2]
+     | .error _ => false) = true := by
+  decide +kernel
 
 end FinProtoc.Props
